@@ -2,6 +2,7 @@ package props
 
 import (
 	"fmt"
+	authtypes "github.com/cosmos/cosmos-sdk/x/auth/types"
 	"math"
 	"reflect"
 	"regexp"
@@ -335,6 +336,16 @@ func (w *c05World) templates() []c05Tmpl {
 		add(o, &storagetypes.MsgPostFile{Creator: A(o), Merkle: f4.Root(), FileSize: f4.Size(), MaxProofs: mp, Expires: c.Height + 14_400 + int64(r.Intn(30000)), Note: "{}"})
 	}
 	add(o, &storagetypes.MsgBuyStorage{Creator: A(o), ForAddress: A(r.Intn(2)), DurationDays: int64(30 + r.Intn(400)), Bytes: int64(1+r.Intn(30)) * 1_000_000_000, PaymentDenom: "ujkl", Referral: ""})
+	{
+		// a plan bought for an account the buyer does not control: module accounts (some hold nothing right after the
+		// distribution module swept them) and an address that never appeared on chain, with and without a referrer
+		mods := []string{authtypes.FeeCollectorName, storagetypes.ModuleName, storagetypes.CollateralCollectorName, "distribution", "bonded_tokens_pool", "gov", "jklmint", "rns", "oracle"}
+		target := chain.ModuleAddr(mods[r.Intn(len(mods))]).String()
+		if r.Chance(0.2) {
+			target = sdk.AccAddress([]byte(fmt.Sprintf("c05-never-seen-%06d", r.Intn(1000000)))).String()
+		}
+		add(o, &storagetypes.MsgBuyStorage{Creator: A(o), ForAddress: target, DurationDays: int64(30 + r.Intn(400)), Bytes: int64(1+r.Intn(30)) * 1_000_000_000, PaymentDenom: "ujkl", Referral: []string{"", A(2 + r.Intn(3)), A(o)}[r.Intn(3)]})
+	}
 	if obs, err := w.Observe(); err == nil && len(obs.Gauges) > 0 {
 		// the escrow account of a live gauge receives tokens the gauge does not record: as the referrer of a purchase
 		// (commission), and by plain transfers in the gauge's denom and in a denom it does not hold
